@@ -521,6 +521,9 @@ def values_equal(a, b, rtol):
     return False
 
 
+LAST = {}
+
+
 def differential(case, d, run=cli_invoke):
     """None if the command line agrees with the library on this case, else (kind, text, details)"""
     cmd = case['cmd']
@@ -530,6 +533,7 @@ def differential(case, d, run=cli_invoke):
         shutil.rmtree(case['_clidir'], ignore_errors=True)
         shutil.rmtree(case['_libdir'], ignore_errors=True)
     lib = library(case)
+    LAST['lib'] = lib[0]
     args, stdin, outfile = build_args(case, d)
     with small_toys(cmd == 'cls' and case.get('calctype') == 'toybased'):
         r = run(args, stdin)
@@ -952,7 +956,7 @@ def run(ctx):
         elif i >= ncorpus and len(samples) < 4 and cmd in ('cls', 'prune', 'combine', 'patchset extract'):
             a, s, o = build_args(case, d)
             samples.append(dict(args=[x if len(x) < 60 else '...' + x[-30:] for x in a], stdin=bool(s)))
-        if res is None and library(case)[0] != 'ok' if cmd not in ('json2xml',) else False:
+        if res is None and LAST.get('lib') != 'ok':
             stats['exit_nonzero'] += 1
         # file output = stdout, on a subset
         if res is None and cmd in ('sort', 'prune', 'rename', 'combine', 'cls', 'fit', 'patchset extract', 'patchset apply', 'xml2json') \
